@@ -4,13 +4,17 @@ package sim
 // adversarial timestamps (clock skew / ties / reversal as the fault).
 
 import (
+	"bytes"
 	"encoding/json"
 	"errors"
+	"fmt"
 	"io"
 	"strings"
 	"sync"
 	"testing"
+	"time"
 
+	"github.com/wrgl/wrgl/pkg/objects"
 	"github.com/wrgl/wrgl/pkg/ref"
 )
 
@@ -22,6 +26,17 @@ type C11Plan struct {
 	FaultQ [][]int  `json:"fault_q,omitempty"` // [a,b] IsAncestorOf / [s] walk / [x,y,z..] with a leading -1: SeekCommonAncestor
 	// Shared k > 0: two goroutines insert commit k-1 into one queue at the same time
 	Shared int `json:"shared,omitempty"`
+	// Long: instead of the graph, a history of thousands of commits (what a memory bound on the walk's visited
+	// set would need): a chain of N commits with rising timestamps, of which the commits at Ahead carry a
+	// timestamp far in the future (an author's clock was wrong), and Extra edges [child, parent] that make such
+	// commits reachable along a second path
+	Long *C11Long `json:"long,omitempty"`
+}
+
+type C11Long struct {
+	N     int     `json:"n"`
+	Ahead []int   `json:"ahead"`
+	Extra [][]int `json:"extra"`
 }
 
 func init() {
@@ -36,6 +51,17 @@ func init() {
 			}
 			g := GenGraph(r.Sub("graph"), n)
 			p := C11Plan{Graph: g}
+			if seed%200 == 0 {
+				rl := r.Sub("long")
+				l := &C11Long{N: Pick(rl, []int{4200, 5000, 8300, 9000})}
+				for k := rl.Range(1, 4); k > 0; k-- {
+					x := rl.Range(1, l.N/3)
+					l.Ahead = append(l.Ahead, x)
+					// reachable again from far above (the head, or a commit thousands of links later)
+					l.Extra = append(l.Extra, []int{Pick(rl, []int{l.N - 1, l.N - 1, min(l.N-1, rl.Range(x+4100, l.N-1))}), x})
+				}
+				return C11Plan{Long: l}
+			}
 			if r.Chance(0.12) {
 				// a commit that lists one parent twice
 				for tries := 0; tries < 5; tries++ {
@@ -88,6 +114,10 @@ func execC11(t *testing.T, raw json.RawMessage, res *Result) {
 	var p C11Plan
 	if err := json.Unmarshal(raw, &p); err != nil {
 		res.Invalid("plan: %v", err)
+		return
+	}
+	if p.Long != nil {
+		execC11Long(p.Long, res)
 		return
 	}
 	if err := p.Graph.Validate(); err != nil || p.Graph.N() == 0 || p.Graph.N() > 60 || len(p.Tuples) > 500 {
@@ -465,4 +495,95 @@ func keysOf(m map[int]bool) []int {
 		}
 	}
 	return ks
+}
+
+// execC11Long: a walk over a history of thousands of commits visits every commit exactly once, whatever the
+// timestamps say; the ancestor test and the merge base agree with the chain.
+func execC11Long(l *C11Long, res *Result) {
+	if l.N < 2 || l.N > 20000 || len(l.Ahead) > 16 || len(l.Extra) > 16 {
+		res.Invalid("long plan out of range")
+		return
+	}
+	ahead := map[int]bool{}
+	for _, a := range l.Ahead {
+		if a < 0 || a >= l.N {
+			res.Invalid("ahead")
+			return
+		}
+		ahead[a] = true
+	}
+	extra := map[int][]int{}
+	for _, e := range l.Extra {
+		if len(e) != 2 || e[1] < 0 || e[0] <= e[1]+1 || e[0] >= l.N {
+			res.Invalid("extra edge")
+			return
+		}
+		extra[e[0]] = append(extra[e[0]], e[1])
+	}
+	st := NewStore("L", &World{})
+	sums := make([][]byte, l.N)
+	idx := make(map[string]int, l.N)
+	for i := 0; i < l.N; i++ {
+		c := &objects.Commit{Table: meowSum([]byte("t")), AuthorName: "a", AuthorEmail: "a@x", Message: fmt.Sprintf("c%d", i)}
+		c.Time = bubbleEpoch.Add(time.Duration(i) * time.Minute)
+		if ahead[i] {
+			c.Time = c.Time.Add(400 * 24 * time.Hour)
+		}
+		if i > 0 {
+			c.Parents = append(c.Parents, sums[i-1])
+		}
+		for _, p := range extra[i] {
+			c.Parents = append(c.Parents, sums[p])
+		}
+		var b bytes.Buffer
+		if _, err := c.WriteTo(&b); err != nil {
+			res.Invalid("%v", err)
+			return
+		}
+		sums[i] = meowSum(b.Bytes())
+		idx[string(sums[i])] = i
+		st.RawSet("com/"+string(sums[i]), b.Bytes())
+	}
+	q, err := ref.NewCommitsQueue(st, [][]byte{sums[l.N-1]})
+	if err != nil {
+		res.Violate("walk-error", "NewCommitsQueue over a chain of %d commits: %v", l.N, err)
+		return
+	}
+	seen := make([]int, l.N)
+	for steps := 0; ; steps++ {
+		sum, _, err := q.PopInsertParents()
+		if errors.Is(err, io.EOF) {
+			break
+		}
+		if err != nil {
+			res.Violate("walk-error", "walk over a chain of %d commits: %v", l.N, err)
+			return
+		}
+		i, ok := idx[string(sum)]
+		if !ok {
+			res.Violate("walk-wrong", "the walk handed out an unknown commit %x", sum)
+			return
+		}
+		seen[i]++
+		if steps > 2*l.N {
+			res.Violate("walk-wrong", "walk over a chain of %d commits (ahead-of-time commits at %v, extra edges %v) does not end within %d pops", l.N, l.Ahead, l.Extra, steps)
+			return
+		}
+	}
+	for i, k := range seen {
+		if k != 1 {
+			res.Violate("walk-wrong", "walk over a chain of %d commits visited commit %d %d times (commits stamped 400 days ahead at %v, extra edges %v)", l.N, i, k, l.Ahead, l.Extra)
+			return
+		}
+	}
+	if ok, err := ref.IsAncestorOf(st, sums[0], sums[l.N-1]); err != nil || !ok {
+		res.Violate("ancestor-wrong", "IsAncestorOf(root, head) over a chain of %d commits = %v, %v", l.N, ok, err)
+		return
+	}
+	if ok, err := ref.IsAncestorOf(st, sums[l.N-1], sums[l.N/2]); err != nil || ok {
+		res.Violate("ancestor-wrong", "IsAncestorOf(head, middle) over a chain of %d commits = %v, %v", l.N, ok, err)
+		return
+	}
+	res.probe("history_of_thousands_of_commits", 1)
+	res.Nontrivial = true
 }
